@@ -312,8 +312,21 @@ class Kernel:
             if ready:
                 t = ready[0]
                 if len(ready) > 1 and self.choices:
-                    t = ready[self.choices.pop(0) % len(ready)]
-                    self.decisions += 1
+                    # a scheduling decision supplied by the harness. Threads (greenlet tasks) may be resumed in any order;
+                    # coroutine tasks of ONE event loop are resumed in the order in which they became ready (FIFO), so
+                    # among the ready coroutine tasks only the first one is a candidate
+                    cands, seen_coro = [], False
+                    for r_ in ready:
+                        if r_.kind == 'g':
+                            cands.append(r_)
+                        elif not seen_coro:
+                            cands.append(r_)
+                            seen_coro = True
+                    if len(cands) > 1:
+                        t = cands[self.choices.pop(0) % len(cands)]
+                        self.decisions += 1
+                    else:
+                        t = cands[0]
                 self._rr = (self.tasks.index(t) + 1)
                 if self.steps > self.max_steps:
                     raise RuntimeError('kernel step budget exceeded (livelock?)')
